@@ -71,6 +71,7 @@ def main(argv):
     st.reach = reach.report()
     d = st.dump()
     d['watched'] = reach.watched(getattr(mod, 'WATCH_LINES', {}))
+    d['reach_detail'] = reach.detail()
     d['wall_s'] = time.time() - t0
     with open(out + '.hashes', 'wb') as f:
         f.write(b''.join(sorted(st.nontrivial_hashes)))
